@@ -152,6 +152,9 @@ class C11(PropBase):
         # a class with the same bare name in both modules (different fields)
         world["modules"][0]["decls"].append({"d": "dataclass", "n": "VwSame", "fields": [{"n": "a", "t": {"k": "int"}}], "flags": {}})
         world["modules"][1]["decls"].append({"d": "dataclass", "n": "VwSame", "fields": [{"n": "a", "t": {"k": "str"}}, {"n": "b", "t": {"k": "int"}, "default": 0}], "flags": {}})
+        # a relay module that binds none of the names: references issued "through" it must still be
+        # resolved against the module further up the stack that does
+        world["modules"].append({"name": "vwr", "future": False, "decls": []})
         env = self.base_env(rng, fault_free=True)
         counter = [0]
         cases = []
@@ -198,6 +201,9 @@ class C11(PropBase):
                 step = {"op": "bare", "name": "VwSame", "mod": mod, "x": x, "dir": rng.choice(["unmarshal", "unmarshal", "build", "graph"])}
                 if "stack" in sw and rng.random() < 0.4:
                     step["depth"] = rng.randint(1, 40)
+                if rng.random() < 0.4:
+                    step["via"] = "vwr"
+                    step["via_depth"] = rng.randint(0, 5)
                 steps.append(step)
                 continue
             c = rng.choice(cases)
@@ -261,14 +267,20 @@ class C11(PropBase):
             if first != step["mod"]:
                 sess.faults["other_module_first"] += 1
                 sess.fault_fired_before = True
+            def issue(fn, *args):
+                if step.get("via"):
+                    relay = sess.world.modules[step["via"]]._vw_call
+                    return sess.guarded(sess.call, step, relay, fn, args, {}, int(step.get("via_depth", 0)))
+                return sess.guarded(sess.call, step, fn, *args)
+
             if step["dir"] == "unmarshal":
-                out = sess.guarded(sess.call, step, typelib.unmarshal, name, sess.V(step["x"]))
+                out = issue(typelib.unmarshal, name, sess.V(step["x"]))
             elif step["dir"] == "build":
-                out = sess.guarded(sess.call, step, typelib.marshaller, name)
+                out = issue(typelib.marshaller, name)
                 if out.ok:
                     out = Outcome(True, out.value.t)
             else:
-                out = sess.guarded(sess.call, step, graph.static_order, name)
+                out = issue(graph.static_order, name)
                 if out.ok:
                     out = Outcome(True, out.value[-1].type if out.value else None)
             sess._c11 = None
@@ -326,7 +338,7 @@ class C11(PropBase):
                 # the input may simply not fit this module's class: judge by what a qualified reference gives
                 import typelib
 
-                ref = sess.guarded(sess.call, step, typelib.unmarshal, want, sess.V(step["x"]))
+                ref = sess.guarded(sess.call, step, typelib.unmarshal, want, sess.V(step["x"]))  # noqa
                 if not ref.ok:
                     return
             if got_cls is not want:
